@@ -20,6 +20,7 @@ func init() {
 			"PV-RESET literalBinOpIterator.Next: accepted results reach r.Samples and the list is cut/set to them",
 			"PV-ALIAS label values shared with the record's attribute maps are never rewritten in place; PV-PAIR every reported record carries its own stream's resource attributes",
 			"line_format result is a copy; eviction at every step; no unsafe.String; LabelSet.Range visits every label",
+			"MO over the JSON path table; merge iterator rules (totals are conserved)",
 		},
 		NotDecided: []string{"64-bit hash collisions between distinct encodings", "count conservation as arithmetic"},
 		Rules: func(r *Run) {
@@ -44,6 +45,9 @@ func init() {
 			ruleTemplateBinding(r) // labels cut out of a formatted line own their bytes
 			ruleNoUnsafeStrings(r, []string{enginePkg, dockerlogPkg})
 			ruleLabelSetRangeWhole(r)
+			ruleMO(r, 10, "jsonexpr")
+			ruleMergeIter(r)
+			ruleJSONExprsAllPaths(r)
 		},
 	})
 }
